@@ -424,6 +424,69 @@ let q_iterops (k : int) (it : item) (args : string list) : string =
         | Some ObsPanic -> Some "panic") obs) in
     "debug=" ^ show Debug ^ "|release=" ^ show Release) (memo iter_cache k (fun () -> gen_iter it))
 
+(* std's adapters, expressed as call sequences on the modelled iterator (modelled std behaviour:
+   Skip::next = nth(n) once then next; StepBy::next = next once then nth(step-1); Rev = next_back;
+   Skip::next_back = next_back while len() > n; Cycle restarts from a clone; count/last/take = next) *)
+exception Model_panic
+let q_adapt (k : int) (it : item) (args : string list) : string =
+  res_str (fun c ->
+    let cnt = iter_count c in
+    let run mode =
+      let st = ref ist0 in
+      let step op = let (s', o) = it_step w64 mode cnt !st op in st := s'; o in
+      let item op = (match step op with
+        | ObsItem None -> None
+        | ObsItem (Some kz) -> (match iter_get c kz with Some ct -> Some (i_nat ct.ct_variant) | None -> None)
+        | ObsPanic -> raise Model_panic | _ -> failwith "adapt: unexpected observation") in
+      let len () = (match step OpLen with ObsLen n -> small_int_of_z n | ObsPanic -> raise Model_panic | _ -> failwith "adapt") in
+      let drain first op =
+        let out = ref [] in
+        let fuel = ref (small_int_of_z cnt + 2) in
+        let cur = ref first in
+        while !cur <> None && !fuel > 0 do
+          (match !cur with Some v -> out := v :: !out | None -> ());
+          decr fuel; cur := item op
+        done; List.rev !out in
+      let name, n = (match String.index_opt (List.hd args) ':' with
+        | Some ci -> let a = List.hd args in (String.sub a 0 ci, String.sub a (ci + 1) (String.length a - ci - 1))
+        | None -> (List.hd args, "0")) in
+      let nz = z_of_dec n in
+      let ni = (try int_of_string n with _ -> max_int) in
+      let vs l = "[" ^ String.concat ";" (List.map (fun v -> "v" ^ string_of_int v) l) ^ "]" in
+      try
+        (match name with
+         | "skip" -> if ni > 0 then vs (drain (item (OpNth nz)) OpNext) else vs (drain (item OpNext) OpNext)
+         | "stepby" -> if ni = 0 then "panic" else vs (drain (item OpNext) (OpNth (Z.sub nz (z_of_int 1))))
+         | "rev" -> vs (drain (item OpNextBack) OpNextBack)
+         | "skiprev" ->
+             let out = ref [] in
+             let continue = ref true in
+             while !continue do
+               if len () - ni > 0 then (match item OpNextBack with Some v -> out := v :: !out | None -> continue := false)
+               else continue := false
+             done; vs (List.rev !out)
+         | "cycle" ->
+             let out = ref [] in
+             let left = ref ni in
+             let stop = ref false in
+             while !left > 0 && not !stop do
+               (match item OpNext with
+                | Some v -> out := v :: !out; decr left
+                | None -> st := ist0; (match item OpNext with Some v -> out := v :: !out; decr left | None -> stop := true))
+             done; vs (List.rev !out)
+         | "count" -> "[" ^ string_of_int (List.length (drain (item OpNext) OpNext)) ^ "]"
+         | "last" -> (match List.rev (drain (item OpNext) OpNext) with v :: _ -> "[v" ^ string_of_int v ^ "]" | [] -> "[none]")
+         | "take" ->
+             let out = ref [] in
+             let left = ref ni in
+             let stop = ref false in
+             while !left > 0 && not !stop do
+               decr left; (match item OpNext with Some v -> out := v :: !out | None -> stop := true)
+             done; vs (List.rev !out)
+         | _ -> failwith "bad adapter")
+      with Model_panic -> "panic" in
+    "debug=" ^ run Debug ^ "|release=" ^ run Release) (memo iter_cache k (fun () -> gen_iter it))
+
 (* ----- EnumTable ----- *)
 let table_cache : (int, table_code res) Hashtbl.t = Hashtbl.create 64
 let split_on c s = String.split_on_char c s
@@ -596,6 +659,7 @@ let rec dispatch (k : int) (it : item) (kind : string) (args : string list) : st
   | "count" -> q_count it
   | "array" -> q_array it
   | "iterops" -> q_iterops k it args
+  | "adapt" -> q_adapt k it args
   | "table" -> q_table k it args
   | "is" -> q_is it args
   | "tryas" -> q_tryas it args
